@@ -127,6 +127,9 @@ Section Graph.
   Definition heads_of (s : list nat) : list nat :=
     let below := strict_ancestors s in
     filter (fun i => negb (nth i below false)) (members (mark s (length parents))).
+  (** Every parent has a smaller position than its child (the index's own invariant). *)
+  Definition wf_parentsb : bool :=
+    forallb (fun i => forallb (fun p => Nat.ltb p i) (nth i parents [])) (seq 0 (length parents)).
   Definition graph_common_ancestors (s1 s2 : list nat) : list nat :=
     let a1 := ancestors s1 in
     let a2 := ancestors s2 in
